@@ -242,6 +242,8 @@ class C05(Check):
 
     def execute(self, case):
         log = core.EventLog()
+        imgsim.fi()
+        imgsim.set_hash_salt(case.get('content') or case)
         data, info = F.build(case['content'])
         n = len(data)
         stats = {'faults': {}, 'probes': {}, 'families': {}, 'sim': {},
